@@ -11,8 +11,9 @@
     - [Known07_ns e]: the expression uses the namespace axis.  Namespace nodes carry key 0 (the
       implicit xml binding) or the key of the declaration they were inherited from, so distinct
       nodes collapse and sort first (D19).
-    - [doc_inv_b doc = false]: the document contains a processing instruction (key 0, D18) or
-      default attributes from the DTD (key 0, D19). *)
+    - [doc_inv_b doc = false]: the document has default attributes from the DTD (key 0, D19).
+      (Processing instructions had key 0 too, D18: repaired in dom, and [DocInv] now holds for
+      documents with PIs, see [C07_example_pi].) *)
 From Coq Require Import List NArith Bool Sorting.Sorted.
 From XmlRs Require Import Base.CPred Model.XPathAst Model.XDoc Model.XDocCheck Model.XPathEval.
 From XmlRs Require Import Proofs.XPathNav Proofs.XPathSort Proofs.XPathAstPred Proofs.XPathCanon
@@ -40,13 +41,15 @@ Proof.
   split; [exact ns_doc_inv|]. split; [exact H1|]. split; [exact H2|]. unfold Known07_ns. rewrite H3. reflexivity.
 Qed.
 
-(** and, without [DocInv], by processing instructions (D18): /r/node() on <r><a/><?p x?><?q y?></r> *)
-Theorem C07_nodeset_canonical_refuted_pi :
+(** and, without [DocInv], by DTD-default attributes (D19):
+    /r/@* on <!DOCTYPE r [<!ATTLIST r d CDATA "dv">]><r a="1"><b/></r> *)
+Theorem C07_nodeset_canonical_refuted_default_attribute :
   exists (doc : xdoc) (e : expr) (l : list node),
-    doc_inv_b doc = false /\ fst (query doc e ctx_default) = Ok (XNodes l) /\ ~ StronglySorted (doc_lt doc) l.
+    doc_inv_b doc = false /\ Known07_ns e = false /\
+    fst (query doc e ctx_default) = Ok (XNodes l) /\ ~ StronglySorted (doc_lt doc) l.
 Proof.
-  exists pi_doc, pi_doc_e0, [5; 3]%N. destruct pi_not_canonical as [H1 H2].
-  split; [vm_compute; reflexivity|]. split; assumption.
+  exists dtd_doc, dtd_doc_e0, [6; 4]%N. destruct default_attribute_not_canonical as [H1 [H2 H3]].
+  split; [vm_compute; reflexivity|]. split; [unfold Known07_ns; rewrite H3; reflexivity|]. split; assumption.
 Qed.
 
 (** The conditional theorem: every node-set produced by any expression without the namespace axis,
@@ -129,6 +132,9 @@ Proof. split; [exact ex_doc_inv|exact ex_good_root]. Qed.
 Example C07_example_following :
   Known07_ns ex_doc_e0 = false /\ fst (query ex_doc ex_doc_e0 ctx_default) = Ok (XNodes [10; 12; 14]%N).
 Proof. destruct ex_following as [_ [H1 H2]]. unfold Known07_ns. rewrite H1. split; [reflexivity|exact H2]. Qed.
+Example C07_example_pi :
+  DocInv pi_doc /\ fst (query pi_doc pi_doc_e0 ctx_default) = Ok (XNodes [3; 5; 6]%N).
+Proof. split; [exact pi_doc_inv|exact (proj1 pi_examples)]. Qed.
 Example C07_example_filter : fst (query ex_doc ex_doc_e1 ctx_default) = Ok (XNodes [5]%N).
 Proof. exact ex_filter_second. Qed.
 Example C07_example_union :
